@@ -11,3 +11,4 @@ import MainlineModel.Model.Lru
 import MainlineModel.Model.Tokens
 import MainlineModel.Model.Messages
 import MainlineModel.Model.Server
+import MainlineModel.Model.Api
